@@ -104,6 +104,7 @@ void join(int task);
 void sleep_us(uint64_t us);          // advance on the simulated clock
 void yield(YieldKind k);
 uint64_t now_us();
+int64_t time_s();          // value the wrapped time() returns now
 uint64_t step();
 uint64_t trace_hash();
 void hash_mix(const void *p, size_t n);
